@@ -693,6 +693,7 @@ package server
 
 //@ func (*Server).SMembers
 //@ requires {C18} storeOK(server) && conn != nil
+//@ requires {C18} kIsSet(server, conn.id, key) ==> noDupStr(kSet(server, conn.id, key).members)
 //@ assigns sm_dom[&server.Databases.Map], sm_val[&server.Databases.Map]
 //@ ensures {C18} storeOK(server)
 //@ ensures {C18} !old(kHas(server, conn.id, key)) ==> err == nil && result0 != nil && result0.Type == proto.ArrayMessage && result0.array != nil && len(result0.array.msgs) == 0
